@@ -31,7 +31,7 @@ def oracle(ck, sc, rec, label):
         evs = rec['evals'][pos_e:sn['n_evals']]
         pos_e = sn['n_evals']
         draws = [e[2] for e in seg if e[0] == 'draw' and e[1] == ph]
-        epochs.append({'w_eval': [ev['w'] for ev in evs if ev['phase'] == ph], 'draws': draws, 'lid': prev['lid'],
+        epochs.append({'w_eval': [ev['w'] for ev in evs if ev['phase'] == ph], 'draws': draws, 'lid': prev['lid'], 'kappa': prev.get('kappa'),
                        'tags': prev['tags'], 'closure': prev['closure'], 'sn': sn})
         k = sn['lens'][f'{ph}_loss']
         prefix = series[:k]
@@ -64,10 +64,15 @@ def oracle(ck, sc, rec, label):
                 key, what = 'best_inv/best-not-snapshot', ('best_nets are not the networks as they were when the lowest loss was computed '
                                                           '(not a frozen copy / wrong epoch)')
             ck.fail(key, what, inp, expected={'epoch': arg + 1, 'weights': w_then}, actual=sn['best'])
+        # ---- frozen copy also of the state OUTSIDE state_dict (a plain attribute used in forward)
+        if sn.get('best_kappa') is not None and ep.get('kappa') is not None and sn['best_kappa'] != ep['kappa']:
+            ck.fail('best_inv/stale-state-outside-state_dict', 'best_nets do not carry the non-state_dict state (plain attribute used in forward) '
+                    'the networks had when the lowest loss was computed', inp, expected=ep['kappa'], actual=sn['best_kappa'])
         # ---- reproduction: mean over that epoch's batches of the loss with best_nets == lowest_loss
         if sn['best'] is not None and ep['draws'] and sc['lid'] <= 3 and ep['lid'] <= 3:
             conds = [dict(T.cond_model(c), tag=(t if T.cond_model(c)['coef'] else 0)) for c, t in zip(sc['conds'], ep['tags'])]
-            vals = [T.ref_loss(cfg, ep['lid'], conds, [Fraction(x) for x in sn['best']], rec['draws'][ph][d]) for d in ep['draws']]
+            bcfg = dict(cfg, kappa=sn['best_kappa']) if sn.get('best_kappa') else cfg        # what best_nets actually compute with
+            vals = [T.ref_loss(bcfg, ep['lid'], conds, [Fraction(x) for x in sn['best']], rec['draws'][ph][d]) for d in ep['draws']]
             mean = sum(vals) / len(vals)
             if abs(mean - Fraction(lo)) > Fraction(1, 10 ** 9) * (1 + abs(mean)):
                 key = 'best_reproduces/closure-novalid' if novalid_closure else 'best_reproduces/mismatch'
@@ -113,8 +118,12 @@ def regression_scenarios():
                                                            [{'when': None, 'act': {'kind': 'real_monitor', 'which': 'metrics', 'check_every': 1,
                                                                                     'cond': {'type': 'period', 'period': 1, 'offset': 0}}}],
                                                            [{'when': None, 'act': {'kind': 'real_report', 'cond': {'type': 'first'}}}]] + rec_cb}])
+    # the network's plain attribute `kappa` (used in forward, NOT in state_dict) is changed by a callback between two improvements
+    kap = dict(base, nbv=1, opt={'kind': 'sgd', 'lr': 0.25},
+               ops=[{'op': 'fit', 'max_epochs': 4, 'cbs': [[{'when': 1, 'act': {'kind': 'set_kappa', 'kappa': [3]}},
+                                                            {'when': 3, 'act': {'kind': 'set_kappa', 'kappa': [-2]}}]] + rec_cb}])
     return [('known-F7-closure-novalid', f7, True), ('forced-tie', tie, True), ('real-SetLossFn-SetOptimizer', real, True),
-            ('real-MonitorCallback', mon, True)] + tiny_improvement_scenarios(base, rec_cb)
+            ('real-MonitorCallback', mon, True), ('state-outside-state_dict', kap, None)] + tiny_improvement_scenarios(base, rec_cb)
 
 
 def tiny_improvement_scenarios(base, rec_cb):
@@ -183,6 +192,12 @@ def main():
         if rec:
             tr = rec['history']['valid_loss' if sc['nbv'] else 'train_loss']
             ties += len(tr) - len(set(tr))
+    # networks with state outside state_dict changed by callbacks between improvements (oracle only: kappa is a constant of the
+    # Coq toy instance)
+    for i in range(n // 8):
+        sc = T.gen_scenario(r, opt_kinds=('sgd', 'script', 'sgd'), cb_actions=('stop', 'set_kappa', 'set_kappa', 'set_loss'),
+                            nbv=(0, 0) if i % 2 == 0 else (1, 3), lids=(0, 1), max_epochs=(2, 6), nmetrics=(0, 0))
+        camp.add(f'kappa#{i}', sc, coq=False)
     camp.dist['ties_forced'] = ties
     camp.correspond()
     if ck.broken and not ck.failures:
